@@ -8,6 +8,7 @@ import pendulum
 from pendulum.duration import Duration
 from pendulum.parsing import _Interval
 from pendulum.parsing import parse as base_parse
+from pendulum.parsing.exceptions import ParserError
 from pendulum.tz.timezone import UTC
 
 
@@ -65,15 +66,33 @@ def _parse(
         )
 
     if isinstance(parsed, _Interval):
-        if parsed.duration is not None:
-            duration = parsed.duration
+        try:
+            if parsed.duration is not None:
+                duration = parsed.duration
 
-            if parsed.start is not None:
-                dt = pendulum.instance(parsed.start, tz=options.get("tz", UTC))
+                if parsed.start is not None:
+                    dt = pendulum.instance(parsed.start, tz=options.get("tz", UTC))
+
+                    return pendulum.interval(
+                        dt,
+                        dt.add(
+                            years=duration.years,
+                            months=duration.months,
+                            weeks=duration.weeks,
+                            days=duration.remaining_days,
+                            hours=duration.hours,
+                            minutes=duration.minutes,
+                            seconds=duration.remaining_seconds,
+                            microseconds=duration.microseconds,
+                        ),
+                    )
+
+                dt = pendulum.instance(
+                    t.cast(datetime.datetime, parsed.end), tz=options.get("tz", UTC)
+                )
 
                 return pendulum.interval(
-                    dt,
-                    dt.add(
+                    dt.subtract(
                         years=duration.years,
                         months=duration.months,
                         weeks=duration.weeks,
@@ -83,48 +102,38 @@ def _parse(
                         seconds=duration.remaining_seconds,
                         microseconds=duration.microseconds,
                     ),
+                    dt,
                 )
 
-            dt = pendulum.instance(
-                t.cast(datetime.datetime, parsed.end), tz=options.get("tz", UTC)
-            )
-
             return pendulum.interval(
-                dt.subtract(
-                    years=duration.years,
-                    months=duration.months,
-                    weeks=duration.weeks,
-                    days=duration.remaining_days,
-                    hours=duration.hours,
-                    minutes=duration.minutes,
-                    seconds=duration.remaining_seconds,
-                    microseconds=duration.microseconds,
+                pendulum.instance(
+                    t.cast(datetime.datetime, parsed.start), tz=options.get("tz", UTC)
                 ),
-                dt,
+                pendulum.instance(
+                    t.cast(datetime.datetime, parsed.end), tz=options.get("tz", UTC)
+                ),
             )
-
-        return pendulum.interval(
-            pendulum.instance(
-                t.cast(datetime.datetime, parsed.start), tz=options.get("tz", UTC)
-            ),
-            pendulum.instance(
-                t.cast(datetime.datetime, parsed.end), tz=options.get("tz", UTC)
-            ),
-        )
+        except OverflowError:
+            # An endpoint outside of the supported range of years
+            raise ParserError(f"Interval is out of range: {text}")
 
     if isinstance(parsed, Duration):
         return parsed
 
     if RustDuration is not None and isinstance(parsed, RustDuration):
-        return pendulum.duration(
-            years=parsed.years,
-            months=parsed.months,
-            weeks=parsed.weeks,
-            days=parsed.days,
-            hours=parsed.hours,
-            minutes=parsed.minutes,
-            seconds=parsed.seconds,
-            microseconds=parsed.microseconds,
-        )
+        try:
+            return pendulum.duration(
+                years=parsed.years,
+                months=parsed.months,
+                weeks=parsed.weeks,
+                days=parsed.days,
+                hours=parsed.hours,
+                minutes=parsed.minutes,
+                seconds=parsed.seconds,
+                microseconds=parsed.microseconds,
+            )
+        except OverflowError:
+            # Beyond the range of timedelta
+            raise ParserError(f"Duration is out of range: {text}")
 
     raise NotImplementedError
